@@ -492,3 +492,23 @@ func VerifH_C15_oneof_ordisabled() {
 		}
 	}
 }
+
+// C02: a step input built from an expression with two references, one of which duplicates a
+// dependency the stage already has: the step starts only after BOTH producers.
+func VerifH_C02_multi_reference() {
+	dup := vx("steps", "a", "outputs", "success", "v")
+	other := vx("steps", "c", "outputs", "success", "v")
+	ok := map[string]int{"deploy": 0, "start": 0, "result": 0}
+	t := tWorkflow{
+		steps: []tStep{
+			{id: "a", fields: map[string]any{"input": verifStepInput(vx("input"))}, outcome: ok},
+			{id: "c", fields: map[string]any{"input": verifStepInput(vx("input"))}, outcome: map[string]int{"deploy": 0, "start": 0}},
+			{id: "b", fields: map[string]any{"input": map[any]any{"x": []any{vx("steps", "a", "outputs", "success", "flag"), vx2(dup, other)}}}, outcome: ok},
+		},
+		outputs: map[string]any{"success": map[any]any{"r": vx("steps", "b", "outputs", "success", "v")}},
+	}
+	ew, run := verifPrepare(t)
+	in := verifrt.NondetVal("input")
+	res := verifExecute(ew, run, t, in)
+	verifCheck(t, run, res, verifNorm(in), vCheckOpts{})
+}
